@@ -485,6 +485,39 @@ def _run_case(case, mon):
                 label = f"stale:{act}"
                 rd = entry(op).getPayload(*hp)
                 mon.check(unbox(rd) == new, "ref:stale:write-not-visible", f"write through an older handle at {hp} not visible: read {rd!r}, expected {new!r}")
+            elif k == "assign_prefix" and t is not None and depth >= 2 and (op["r"] >> 11) % 3 and not mon.tag:
+                # (outside metrics sessions: a free right-hand fiber has no rank the session knows)
+                # in-place arithmetic with a FIBER operand through the handle at a partial point (a leaf-level sub-fiber, possibly
+                # created just now and still empty): `sub += g` adds g's non-empty elements to the values under the prefix (absent ones
+                # counting as the default), `sub *= g` multiplies where both hold a value and empties the rest of sub
+                pre = pt[:depth - 1]
+                sub = entry(op).getPayloadRef(*pre)
+                r = random.Random(op["r"])
+                ospec = gen.rand_leaf_spec(r, init["ext"][-1] + 1, r.choice([0.3, 0.6, 0.9]), 0.2, d)
+                other = gen.fiber_from_spec(ospec, d)
+                live_o = {c: v for c, v in ospec if v != d}
+                under = {p_[-1]: v_ for p_, v_ in model.items() if p_[:len(pre)] == pre and len(p_) == depth}
+                if (op["r"] >> 11) % 3 == 1:
+                    upd = {c: under.get(c, d) + v for c, v in live_o.items()}
+                    sub += other
+                    label = "assign_prefix:iadd-fiber"
+                else:
+                    upd = {c: (under[c] * live_o[c] if c in live_o else d) for c in under}
+                    sub *= other
+                    label = "assign_prefix:imul-fiber"
+                if not under:
+                    mon.count("partial_fiber_operand_updates_on_empty_subfiber")
+                for c, val in upd.items():
+                    if val != d:
+                        model[pre + (c,)] = val
+                    else:
+                        model.pop(pre + (c,), None)
+                wrote.update(pre + (c,) for c in upd)
+                mon.count("partial_fiber_operand_updates")
+                mon.check(_raw_lookup(root, pre) is sub, "ref:partial:update-replaced-sub-fiber",
+                          f"after {label} through the handle at the prefix {pre} the stored sub-fiber is another object")
+                mon.check(content(other, d) == {(c,): v for c, v in live_o.items()}, "assign_prefix:fiber-operand-changed",
+                          f"the right-hand fiber of {label} holds {content(other, d)} afterwards, it was built from {live_o}")
             elif k == "assign_prefix":
                 if t is None or depth < 2:
                     continue
@@ -749,6 +782,22 @@ def _run_case(case, mon):
                 tp = pre + (c,)
                 mon.count("handles_checked")
                 mon.count(f"handle_pos_{posvia}")
+                if len(f.coords) >= 2 and (op["r"] >> 6) % 4 == 0:
+                    # first an assignment by position that the library refuses (its coordinate collides with a neighbour's):
+                    # a refused write is no write -- the point keeps the value most recently written, nothing else moves
+                    pn = pos % len(f.coords)
+                    bad_c = f.coords[pn + 1] if pn + 1 < len(f.coords) else f.coords[pn - 1]
+                    b4 = snap(subject)
+                    try:
+                        f[pos] = CoordPayload(bad_c, 99)
+                    except Exception:      # noqa  (CoordinateError; which exception is C01's business)
+                        mon.count("setitem_refused")
+                        mon.check(snap(subject) == b4, "setitem:refused:modified-tree",
+                                  "f[pos] = CoordPayload(c, v) refused for its coordinate changed the stored tree")
+                        if not compare("handle:setitem:refused"):
+                            return
+                    else:
+                        return      # accepted although out of order: the tree is C01's to judge; this history ends
                 # right-hand side; its value comes from the map, never from the library
                 rhs_kind, act = op["rhs"], op["act"]
                 if act == "none":
